@@ -266,9 +266,24 @@ def rule_loop_progress(ctx):
                 cur = nxt
             return False
 
+        ARITH = re.compile(r"(?:(?:Add|Sub)WithOverflow|\bAdd|\bSub)\((?:copy|move) _(\d+)")
+        # a counter update is `x = x +/- c`: the sum must be stored back into the local it was computed from (a shadowing
+        # `let m = m + 1;` computes a sum but leaves the tested variable as it was)
+        all_stmts = [st for b2 in blocks.values() for st in b2.get("stmts", [])]
+
+        def stored_back(st):
+            mm = ARITH.search(st.get("rv", ""))
+            if not mm:
+                return False
+            x, d = int(mm.group(1)), st.get("dst")
+            if d == x:
+                return True
+            pat = re.compile(r"\b_%s\b" % d)
+            return any(s2.get("dst") == x and pat.search(s2.get("rv", "")) for s2 in all_stmts)
+
         def progress(b_):
             for st in b_.get("stmts", []):
-                if re.search(r"(Add|Sub)WithOverflow\(|\bAdd\(|\bSub\(", st.get("rv", "")):
+                if stored_back(st):
                     return True
             t = b_["term"]
             return t.get("t") == "Call" and bool(PROGRESS_CALL.search(t.get("callee_res") or t.get("callee") or ""))
